@@ -174,7 +174,7 @@ def main(tier, seed):
     run.assumptions = ["schedules are seeded samples (bounded), injected through the documented "
                        "init_message_stack extension point; no repo hook",
                        "an instance reported by only one run is accepted iff its value is identically 0"]
-    ns = 4 if tier == "quick" else 40
+    ns = 4 if tier == "quick" else 20
     items = [(name, prog, [{"engine": "perm", "seed": "%s/%s/%d" % (seed, name, k)} for k in range(ns)])
              for name, prog in programs(tier, seed, 21000)]
     run.bounds = {"skeletons": len(items), "schedules_per_skeleton": ns}
